@@ -545,9 +545,17 @@ func genC08() *rapid.Generator[*Spec] {
 			return s
 		}
 		in := &s.Injectors[k]
-		kind := x.pick([]string{"func", "value", "ivalue", "bind", "bind", "fields", "set", "inline", "inline2", "shared", "shared", "nest-control", "struct", "twinfunc", "twinfunc", "emptyset", "emptyinline", "emptynested"}, "extra")
+		kind := x.pick([]string{"sharedset", "func", "value", "ivalue", "bind", "bind", "fields", "set", "inline", "inline2", "shared", "shared", "nest-control", "struct", "twinfunc", "twinfunc", "emptyset", "emptyinline", "emptynested"}, "extra")
 		noShuffle := false
 		freshT := func() *Type { return Named(addFreshStruct(s, 0, x.fresh("U"))) }
+		if kind == "sharedset" && len(s.Injectors) > 1 {
+			// the later the injector, the more earlier ones it can share a set with
+			if vl := m.Judge(len(s.Injectors) - 1); vl.Accept {
+				k = len(s.Injectors) - 1
+				v = vl
+				in = &s.Injectors[k]
+			}
+		}
 		switch kind {
 		case "func":
 			in.Args = append(in.Args, RItem(addItem(s, Item{Kind: "func", Pkg: 0, Name: x.fresh("ProvideU"), Out: freshT()})))
@@ -697,6 +705,40 @@ func genC08() *rapid.Generator[*Spec] {
 				break
 			}
 			in.Args = append(in.Args, RItem(cands[x.intn(0, len(cands)-1, "shareditem")]))
+		case "sharedset":
+			// a named set that an injector declared EARLIER lists directly and
+			// uses, but this injector does not need at all
+			var cands []int
+			for j := 0; j < k; j++ {
+				vj := m.Judge(j)
+				if !vj.Accept {
+					continue
+				}
+				for _, a := range s.Injectors[j].Args {
+					if a.Set < 0 {
+						continue
+					}
+					r := m.EvalSet([]Ref{a}, nil)
+					if len(r.Errs) > 0 || len(r.Keys) == 0 {
+						continue
+					}
+					clash := false
+					for _, key := range r.Keys {
+						if _, ok := v.Set.Map[key]; ok {
+							clash = true
+						}
+					}
+					if !clash {
+						cands = append(cands, a.Set)
+					}
+				}
+			}
+			if len(cands) == 0 {
+				kind = "func"
+				in.Args = append(in.Args, RItem(addItem(s, Item{Kind: "func", Pkg: 0, Name: x.fresh("ProvideU"), Out: freshT()})))
+				break
+			}
+			in.Args = append(in.Args, RSet(cands[x.intn(0, len(cands)-1, "sharedsetidx")]))
 		case "nest-control":
 			// indirect use: a needed direct item moves into a new nested set (must stay accepted)
 			for ai, a := range in.Args {
